@@ -14,7 +14,7 @@ set_option linter.unusedSimpArgs false
 /-- close a scalar identity between products of the factors -/
 macro "scal_eq" hg:term : tactic => `(tactic| (
   have h1 := ($hg).l_ne; have h2 := ($hg).t_ne; have h3 := ($hg).θ_ne
-  simp only [Scale.wF, Scale.wV, Scale.wA, Scale.wE, Scale.wR, Scale.wL2, one_div]
+  try simp only [Scale.wF, Scale.wV, Scale.wA, Scale.wE, Scale.wR, Scale.wL2, one_div]
   try field_simp
   try ring))
 
@@ -22,7 +22,7 @@ macro "scal_eq" hg:term : tactic => `(tactic| (
  every monomial, then compare the coefficients -/
 macro "pw" hg:term : tactic => `(tactic| (
   simp only [smul_mul_assoc, mul_smul_comm, smul_smul, smul_neg, neg_smul, neg_mul, mul_neg, smul_add,
-    smul_sub, add_mul, mul_add, sub_mul, mul_sub]
+    smul_sub, add_mul, mul_add, sub_mul, mul_sub, Prod.smul_fst, Prod.smul_snd]
   all_goals (match_scalars <;> scal_eq $hg)))
 
 section terms
